@@ -75,6 +75,26 @@ impl InlineCache {
     }
   }
 
+  /// The number of property slots in this cache
+  pub fn property_slots(&self) -> usize {
+    self.property.len()
+  }
+
+  /// The number of invoke slots in this cache
+  pub fn invoke_slots(&self) -> usize {
+    self.invoke.len()
+  }
+
+  /// Grow this cache to the provided number of slots. Existing
+  /// slots keep their position and their cached state
+  pub fn grow(&mut self, property_slots: usize, invoke_slots: usize) {
+    debug_assert!(property_slots >= self.property.len());
+    debug_assert!(invoke_slots >= self.invoke.len());
+
+    self.property.resize(property_slots, None);
+    self.invoke.resize(invoke_slots, None);
+  }
+
   /// Attempt to retrieve the property cache at a given slot
   /// for the provided class
   pub fn get_property_cache(&self, inline_slot: usize, class: ObjRef<Class>) -> Option<usize> {
@@ -194,6 +214,15 @@ pub struct CacheIdEmitter {
 }
 
 impl CacheIdEmitter {
+  /// Create an emitter that continues after the provided number
+  /// of property and invoke ids have already been handed out
+  pub fn new(property_count: usize, invoke_count: usize) -> Self {
+    Self {
+      property: IdEmitter::new(property_count),
+      invoke: IdEmitter::new(invoke_count),
+    }
+  }
+
   /// Emit a new property id
   pub fn emit_property(&mut self) -> u32 {
     if self.property_count() > u32::MAX as usize {
